@@ -101,7 +101,7 @@ def rule_g1(F, get_function=GET_FUNCTION, typed_func=TYPED_FUNC,
                 if not any(need in n for n in names):
                     continue
                 found = True
-                if mir.gated_by(b, g, abb):
+                if mir.gated_through(b, defs, gs, g, abb):
                     ok = True
             r.inst("%s|%s" % (get_function, need),
                    {"constructor_block": abb, "gate": need, "passes_through_ok_edge": ok})
@@ -343,23 +343,15 @@ def _bound_fields(ld, local):
     return {x for x in d[2] if isinstance(x, str) and x not in ("arm", "param")}
 
 
-def _name_helper_info(F, init):
-    """`helper(&roto_type, "NAME")`: does the crate-local helper compare the type's name with the name it is given and with the GLOBAL
-    scope, and does it hand out the type's arguments?"""
-    init = hir.peel_refs(hir.strip(init or {}))
-    if init.get("k") != "call":
-        return None
-    d = hir.call_def(init)
-    hb = F.body(d) if d else None
-    if hb is None or not hb.hir or not d.startswith("codegen::check::"):
-        return None
-    lits = [hir.strip(a).get("v") for a in init["args"] if hir.strip(a).get("k") == "lit" and isinstance(hir.strip(a).get("v"), str)]
-    if len(lits) != 1:
-        return None
+def _name_cmp_in(F, d, lit_pos, depth=0):
+    """(compares with GLOBAL scope, compares with its parameter number lit_pos, hands out the arguments) for the crate-local helper d;
+    a helper that passes the type and the name on to a second helper is as good as that one."""
+    hb = F.body(d)
+    if hb is None or not hb.hir:
+        return (False, False, False)
     hh = hb.hir["value"]
     hld = hir.LocalDefs(hb.hir)
     pidx = hir.param_index(hb.hir)
-    lit_pos = [i for i, a in enumerate(init["args"]) if hir.strip(a).get("k") == "lit"][0]
     glob = any((hir.res_def(n) or "").endswith("ScopeRef::GLOBAL") for n in hir.walk(hh) if n.get("k") == "path")
     # the comparison(s): == / != whose operands involve the `name`/`ident`/`scope` of the type on one side and the parameter / GLOBAL on the other
     cmp_param = cmp_scope = False
@@ -387,7 +379,35 @@ def _name_helper_info(F, init):
             cmp_scope = True
     returns_arguments = any(n.get("k") == "field" and n.get("n") == "arguments" for n in hir.walk(hh)) or \
         any("arguments" in hir.pat_desc(p) for p in [x["pat"] for x in hir.nodes(hh, "letstmt")] + [a["pat"] for m in hir.nodes(hh, "match") for a in m["arms"]])
-    return {"literal": lits[0], "helper": d, "global": glob and cmp_scope, "by_param": cmp_param, "arguments": returns_arguments}
+    res = (bool(glob and cmp_scope), cmp_param, returns_arguments)
+    if not (res[0] and res[1]) and depth < 2:
+        for c in hir.nodes(hh, "call"):
+            d2 = hir.call_def(c) or ""
+            if not d2.startswith("codegen::check::") or d2 in (d, CHECK_ROTO_TYPE):
+                continue
+            for j, a in enumerate(c["args"]):
+                if hir.param_roots(hb.hir, hld, a, pidx=pidx) == {lit_pos}:
+                    sub = _name_cmp_in(F, d2, j, depth + 1)
+                    res = (res[0] or sub[0], res[1] or sub[1], res[2] or sub[2])
+    return res
+
+
+def _name_helper_info(F, init):
+    """`helper(&roto_type, "NAME")`: does the crate-local helper compare the type's name with the name it is given and with the GLOBAL
+    scope, and does it hand out the type's arguments?"""
+    init = hir.peel_refs(hir.strip(init or {}))
+    if init.get("k") != "call":
+        return None
+    d = hir.call_def(init)
+    hb = F.body(d) if d else None
+    if hb is None or not hb.hir or not d.startswith("codegen::check::"):
+        return None
+    lits = [hir.strip(a).get("v") for a in init["args"] if hir.strip(a).get("k") == "lit" and isinstance(hir.strip(a).get("v"), str)]
+    if len(lits) != 1:
+        return None
+    lit_pos = [i for i, a in enumerate(init["args"]) if hir.strip(a).get("k") == "lit"][0]
+    g_, p_, a_ = _name_cmp_in(F, d, lit_pos)
+    return {"literal": lits[0], "helper": d, "global": g_, "by_param": p_, "arguments": a_}
 
 
 def _constructor_helper(F, body):
